@@ -311,9 +311,9 @@ def check(prop, tier):
             hints_after_crash(v, tier, tag)
         if prop == "C13" and not v.violations:
             reclaim_after_crash(v, tier, tag)
-        if prop in ("C01", "C02", "C12", "C13") and not v.violations:
+        if prop in ("C01", "C02", "C05", "C12", "C13") and not v.violations:
             import fscalls
-            keep = {"C01": lambda b: True, "C02": lambda b: True,
+            keep = {"C01": lambda b: True, "C02": lambda b: True, "C05": lambda b: ["merge"] in b["ops"],
                     "C12": lambda b: ["merge"] in b["ops"],
                     "C13": lambda b: b["cfg"]["thSmall"] >= 1000000}[prop]
             fscalls.under_faults(v, prop, tier, tag, keep=keep, share=3 if prop in ("C01", "C02") else 2)
